@@ -466,6 +466,10 @@ def variants(root):
       '                W, = np.where(G1[v, :])  # neighbors of shortest nodes\n                if W.size == 0:\n                    continue\n')
     B('private search: relaxation loop left early', 'efficiency_wei', '                    W, = np.where(G1[v, :])  # neighbors of smallest nodes\n',
       '                    W, = np.where(G1[v, :])  # neighbors of smallest nodes\n                    if not len(W):\n                        break\n', '', file=E)
+    N('unreachable test with the arms exchanged', 'distance_wei', '            if np.isinf(minD):  # some nodes cannot be reached\n                break\n\n            V, = np.where(D[u, :] == minD)\n',
+      '            if not np.isinf(minD):\n                V, = np.where(D[u, :] == minD)\n            else:\n                break\n')
+    N('next distance named at the top of the iteration', 'breadth', '        for v in ns:\n', '        for v in ns:\n            nd = distance[u] + 1\n',
+      also=[(D, '                distance[v] = distance[u] + 1\n                branch[v] = u', '                distance[v] = nd\n                branch[v] = u', 1)])
     B('floyd non-strict', 'distance_wei_floyd', 'path = SPL > i2k_k2j', 'path = SPL >= i2k_k2j', 'K.floyd')
     B('floyd zero weights stay zero', 'distance_wei_floyd', '        SPL[SPL == 0] = np.inf\n', '', 'T.absent')
     B('floyd diagonal not reset', 'distance_wei_floyd', '    SPL[I] = 0\n', '', 'T.diagonal-of-all')
